@@ -1,14 +1,23 @@
 #!/bin/sh
 # coordinator helper: merge a contributor branch, resolving the generated files
-set -e
 cd /verif
 b="$1"
 git merge --no-edit "$b" >/dev/null 2>&1 || true
 git rm -q -f --cached coq/Generated.v coq/_CoqProject coq/.nia.cache 2>/dev/null || true
-git checkout --theirs .gitignore 2>/dev/null || true
-git checkout HEAD -- .gitignore 2>/dev/null || true
+# append-merge files: union of lines, ours first
+for f in known_findings.txt; do
+  if git ls-files -u | grep -q "	$f$"; then
+    git show :2:$f > /tmp/ours.$$ 2>/dev/null || : > /tmp/ours.$$
+    git show :3:$f > /tmp/theirs.$$ 2>/dev/null || : > /tmp/theirs.$$
+    cp /tmp/ours.$$ $f
+    grep -vxFf /tmp/ours.$$ /tmp/theirs.$$ >> $f || true
+    git add $f
+  fi
+done
+# evidence files are rewritten by every run: take theirs
+for f in $(git ls-files -u | cut -f2 | sort -u | grep '^evidence/' || true); do git checkout --theirs $f 2>/dev/null; git add $f; done
 cp /repo/Cargo.lock harness/Cargo.lock
 (cd harness && cargo metadata --offline --format-version 1 >/dev/null 2>&1 || true)
 git -C /repo log --oneline | grep "hooks:" | cut -c1-90 | tac > props/hook_commits.txt
 git add harness/Cargo.lock props/hook_commits.txt
-git status --short | grep -E "^(UU|AA|DU|UD) " || true
+git ls-files -u | cut -f2 | sort -u
